@@ -82,10 +82,14 @@ def init : State := {}
 def nat? (s : String) : Option Nat :=
   if s.length = 0 ∨ s.length > 6 ∨ !s.all Char.isDigit then none else s.toNat?
 
+/-- an `i32`: optional '-', 1..10 digits, value in range (exit codes: the whole range is in play) -/
 def int? (s : String) : Option Int :=
-  match s.toList with
-  | '-' :: r => (nat? (String.ofList r)).map fun n => -(Int.ofNat n)
-  | _ => (nat? s).map Int.ofNat
+  let mag (d : String) : Option Nat :=
+    if d.length = 0 ∨ d.length > 10 ∨ !d.all Char.isDigit then none else d.toNat?
+  let v : Option Int := match s.toList with
+    | '-' :: r => (mag (String.ofList r)).map fun n => -(Int.ofNat n)
+    | _ => (mag s).map Int.ofNat
+  v.bind fun i => if -2147483648 ≤ i ∧ i ≤ 2147483647 then some i else none
 
 def stripPre (p s : String) : Option String :=
   let pl := p.toList
